@@ -84,14 +84,19 @@ CLAIMED = {
 # seeded changes asked for); appended to the claim text of the property.
 EXTRA = {
  "C01": " Also: int/long/byte arrays and lists of 257/129/1025/300 (thorough 1100/1030/4100) elements, every element arbitrary, decoded in order into typed and `any` targets and encoded to the reference bytes; the encoding of an interface-typed sequence is the reference whatever was encoded before it (no content-dependent per-type caching).",
- "C02": " Also: four levels of anonymous embedding; maps with 2-3 entries whose values are carriers, slices, maps and structs with omitted fields; lists of such structs.",
- "C04": " Also: byte/int/long arrays, lists and strings of 1025/300/140/1100/5000 (thorough up to 70000) elements through binary -> text -> binary with one arbitrary element at the 1024 boundary.",
+ "C02": " Also: four levels of anonymous embedding; maps with 2-3 entries whose values are carriers, slices, maps and structs with omitted fields; lists of such structs. Lists of 1100 and 33000 carriers (thorough: structs with omitted fields) element by element and byte for byte; strings, root names and map keys of 32766..70000 bytes: whatever the encoder accepts decodes back, the rest is refused.",
+ "C04": " Also: byte/int/long arrays, lists and strings of 1025/300/140/1100/5000 (thorough up to 70000) elements through binary -> text -> binary with one arbitrary element at the 1024 boundary. Integer literals around every range limit (all 3-digit, thorough 5-digit, magnitudes; two arbitrary final digits after concrete prefixes around 2^31, 2^32, 2^63, 2^64) alone, as array element and as compound value: exact in range, never a wrapped number out of range. A fixed valid text of each container kind converts to its reference bytes after any earlier text of 2..5 (thorough 2..7) bytes, accepted or rejected.",
  "C06": " Also: String, ByteArray, Ary[VarInt], BitSet and Tuple{String,Int} at 127/128/300/16384/70000 (thorough also 129/16383/32767) elements with arbitrary contents, whole-value comparison and exact counts.",
  "C07": " Also: frames of 300 KiB and just below the 2 MiB limit (Packet Length of 4 VarInt bytes) in every threshold class against the independent frame reader; packets received earlier and held in their own Packet stay intact across later Pack/UnPack calls with always-reused pooled buffers.",
  "C08": " Also: arrays declaring 0..70001 and 2^22 elements over streams holding 1500/5000 (thorough 70000) elements: never a panic, success exactly when every declared element is present.",
  "C10": " Also: single calls of 1025 and 4097 (thorough 2049) bytes in every buffer arrangement; the encrypted Conn over a transport delivering 1 or 3 bytes per Read.",
  "C12": " Also: with-data constructors with palettes beyond the indirect range (257/300 block states, 9/16/17 biomes: the saved form indexes its own palette).",
  "C13": " Also: the save form of a container in every representation class (1..300 distinct states, 1..64 biomes) read back by the with-data constructors position by position; ChunkToSave -> ChunkFromSave of a chunk with sections over a four-state mini registry whose ids and names coincide with the real registry (air, stone, granite, polished granite), with arbitrary blocks at chosen positions, a biome, light arrays absent / present-and-dark / present with arbitrary bytes, status and a height map.",
+ "C03": " Also: the typed decoder fed from bytes.Reader and (thorough) bytes.Buffer sources (which expose Len and friends) as well as a bare reader; a non-empty list whose element type is TAG_End counts as an unknown tag id.",
+ "C09": " Carriers and dynbt.Value on structured values (several multi-byte elements, nested arrays, a compound) under all schedules; payloads of 4096..70000 bytes with the writer failing right after the header, mid-frame or on the last byte, and the stream of such a frame ending or failing early.",
+ "C14": " Two (thorough: three) successive writes on one Region value from arbitrary small layouts (state kept between calls).",
+ "C17": " After a write that failed at offset 0, 1 or last-1 the next component is written and read back as usual; chat-type targets that are blank, style-only or a translation.",
+ "C18": " Repeated presentation of the same (key, signature): an acceptance is backed by an RSA success against the embedded key in that very call.",
  "C16": " Also: payloads of 4000 and 4082..4086 bytes (declared length up to the 4096 limit) written and read back; the server side starts from an arbitrary recorded request id.",
 }
 
